@@ -213,3 +213,33 @@ func FuzzC10(f *testing.F) {
 		}
 	})
 }
+
+// FuzzC18: flag and environment strings for the three options (presence bits in
+// mask) against the restated resolution, observed at the Config value.
+func FuzzC18(f *testing.F) {
+	f.Add(uint8(0xff), "true", " yes ", "gen_,,x", " a , b ", "imm01,CTOR", "all")
+	f.Add(uint8(0x2a), "", "On", "", "testdata", "", " tonl ,")
+	f.Add(uint8(0x15), "F", "tRuE", ",", "", " ", "")
+	f.Fuzz(func(t *testing.T, mask uint8, scanFlag, scanEnv, pathsFlag, pathsEnv, checksFlag, checksEnv string) {
+		var c c18Case
+		pick := func(bit uint, s string) *string {
+			if mask&(1<<bit) != 0 {
+				return &s
+			}
+			return nil
+		}
+		c.ScanTests = optState{Flag: pick(0, scanFlag), Env: pick(1, scanEnv), BareBool: mask&0x40 != 0}
+		if c.ScanTests.BareBool {
+			c.ScanTests.Flag = nil
+		}
+		c.ExcludePaths = optState{Flag: pick(2, pathsFlag), Env: pick(3, pathsEnv)}
+		c.ExcludeChecks = optState{Flag: pick(4, checksFlag), Env: pick(5, checksEnv)}
+		c.Driver = "inproc"
+		why := c18Inproc(c)
+		if why == "" || strings.HasPrefix(why, "SKIP") {
+			return
+		}
+		b, _ := json.Marshal(c)
+		fuzzViolation(t, "C18", "c18inproc", "fuzz", len(b), c, fmt.Sprintf("configuration %s: %s", b, why))
+	})
+}
